@@ -1,0 +1,39 @@
+//go:build verif
+
+package sql
+
+import (
+	"database/sql"
+	"database/sql/driver"
+	"sync"
+
+	"seata.apache.org/seata-go/pkg/datasource/sql/types"
+	"seata.apache.org/seata-go/pkg/protocol/branch"
+)
+
+// VerifRegisterDrivers registers the AT and XA proxy drivers over an arbitrary
+// target driver (the shipped registration hard-wires the MySQL network driver).
+func VerifRegisterDrivers(atName, xaName string, target driver.Driver) {
+	sql.Register(atName, &seataATDriver{
+		seataDriver: &seataDriver{
+			branchType: branch.BranchTypeAT,
+			transType:  types.ATMode,
+			target:     target,
+		},
+	})
+	sql.Register(xaName, &seataXADriver{
+		seataDriver: &seataDriver{
+			branchType: branch.BranchTypeXA,
+			transType:  types.XAMode,
+			target:     target,
+		},
+	})
+}
+
+// VerifKeeper exposes the XA connection keeper of a resource.
+func VerifKeeper(res *DBResource) *sync.Map { return &res.keeper }
+
+// VerifNewAsyncWorkerResource builds a DBResource for a stub data source manager.
+func VerifNewDBResource(resourceID string, db *sql.DB, dbType types.DBType) *DBResource {
+	return &DBResource{resourceID: resourceID, db: db, dbType: dbType, branchType: branch.BranchTypeAT}
+}
